@@ -561,7 +561,7 @@ func (t *RaftTransaction) ListPage(ctx context.Context, prefix string, after str
 		}
 		var mergedEntries []string
 		for updateEntry := range updates {
-			if updateEntry < entry && updateEntry > lastKey {
+			if updateEntry < entry && (len(keys) == 0 || updateEntry > lastKey) {
 				mergedEntries = append(mergedEntries, updateEntry)
 				delete(updates, updateEntry)
 			}
@@ -595,7 +595,7 @@ func (t *RaftTransaction) ListPage(ctx context.Context, prefix string, after str
 	}
 	var mergedEntries []string
 	for updateEntry := range updates {
-		if updateEntry > lastKey {
+		if len(keys) == 0 || updateEntry > lastKey {
 			mergedEntries = append(mergedEntries, updateEntry)
 			delete(updates, updateEntry)
 		}
